@@ -35,5 +35,5 @@ Theorem k_jitdiff_safe : forall args, Pre_jitdiff args ->
   forall fuel, safe_outcome (run fuel k_jitdiff args).
 Proof.
   intros args (d1 & d2 & d3 & d4 & s1 & e1 & s2 & e2 & -> & H1 & H2) fuel.
-  safe_start k_jitdiff ann_jitdiff. vc.
+  safe_start k_jitdiff ann_jitdiff. vc k_jitdiff ann_jitdiff.
 Qed.
